@@ -11,12 +11,14 @@ from .synth import SynthModel, random_rho
 from . import eleccommon as ec
 
 
-def make_spec(rng, hops=True):
+def make_spec(rng, hops=True, cls="TrajectorySH"):
     N, n = int(rng.integers(2, 5)), int(rng.integers(1, 4))
     K = int(rng.integers(15, 50))
     # thresholds: hop-free runs use unreachable values; otherwise small values so that several attempts happen
     zetas = [1e300] * (K + 3) if not hops else [float(z) for z in rng.random(K + 3) * rng.choice([0.02, 0.1, 0.5])]
-    return dict(N=N, n=n, K=K, model_seed=int(rng.integers(1, 10 ** 6)), x0=[float(v) for v in rng.normal(size=n) * 0.5],
+    if cls == "TrajectoryCum" and hops:
+        zetas = [float(z) for z in rng.random(K + 3) * rng.choice([0.05, 0.3, 0.9])]
+    return dict(cls=cls, representation=("diabatic" if (cls == "Ehrenfest" and rng.random() < 0.5) else "adiabatic"), N=N, n=n, K=K, model_seed=int(rng.integers(1, 10 ** 6)), x0=[float(v) for v in rng.normal(size=n) * 0.5],
                 p0=[float(v) for v in rng.normal(size=n) * 10 + 5], state=int(rng.integers(0, N)),
                 dt=float(rng.choice([1.0, 4.0, 10.0])), zetas=zetas, t0=float(rng.choice([0.0, 3.5])))
 
@@ -31,10 +33,25 @@ def record_run(spec):
     import mudslide
     rng = np.random.Generator(np.random.PCG64(spec["model_seed"]))
     N, n, K = spec["N"], spec["n"], spec["K"]
-    model = SynthModel(rng, N, n, scale=0.03, gap=0.02, quad=0.004, mass=10 ** rng.uniform(2.5, 3.5, size=n))
+    cls = spec.get("cls", "TrajectorySH")
+    model = SynthModel(rng, N, n, scale=0.03, gap=0.02, quad=0.004, mass=10 ** rng.uniform(2.5, 3.5, size=n),
+                       representation=spec.get("representation", "adiabatic"))
     rho0 = random_rho(rng, N, "pure")
-    t = mudslide.TrajectorySH(model, np.array(spec["x0"]), np.array(spec["p0"]), rho0, state0=spec["state"], dt=spec["dt"],
-                              t0=spec["t0"], max_steps=K, zeta_list=list(spec["zetas"]), seed_sequence=1)
+    t = getattr(mudslide, cls)(model, np.array(spec["x0"]), np.array(spec["p0"]), rho0, state0=spec["state"], dt=spec["dt"],
+                               t0=spec["t0"], max_steps=K, zeta_list=list(spec["zetas"]), seed_sequence=1)
+    cum = []
+    z0 = float(getattr(t, "zeta", 0.0))
+    if cls == "TrajectoryCum":
+        orig_hopper = t.hopper
+
+        def hopper(g):
+            bg = type(t.random_state.bit_generator)()
+            bg.state = t.random_state.bit_generator.state
+            gen = np.random.Generator(bg)
+            u, nxt = float(gen.random()), float(gen.uniform())
+            cum.append((u, float(t.zeta_list[0]) if len(t.zeta_list) else nxt))
+            return orig_hopper(g)
+        t.hopper = hopper
     elecs, caps = [], []
     orig_update = model.update
 
@@ -56,14 +73,17 @@ def record_run(spec):
     tr = t.simulate()
     snaps = list(tr)
     steps = len(snaps) - 1
-    line = ["shrun", N, n, steps] + fbs(model.mass) + [fb(spec["dt"])] + fbs(spec["x0"]) + fbs(np.array(spec["p0"]) / model.mass) + \
-        cbs(rho0) + [spec["state"], fb(spec["t0"])]
+    op = {"TrajectorySH": "shrun", "Ehrenfest": "ehrun", "TrajectoryCum": "cumrun"}[cls]
+    line = [op, N, n, steps] + fbs(model.mass) + [fb(spec["dt"])] + fbs(spec["x0"]) + fbs(np.array(spec["p0"]) / model.mass) + \
+        cbs(rho0) + [spec["state"], fb(spec["t0"])] + ([fb(z0)] if cls == "TrajectoryCum" else [])
     H, dc, F = elecs[0]
     line += fbs(H) + fbs(dc) + fbs(F)
     for k in range(steps):
         H, dc, F = elecs[k + 1]
         _a, w, cf = caps[k]
         line += fbs(H) + fbs(dc) + fbs(F) + fbs(w) + cbs(cf) + [fb(spec["zetas"][k])]
+        if cls == "TrajectoryCum":
+            line += [fb(cum[k][0]), fb(cum[k][1])]
     events = sorted([(e["time"], 1, e["from"], e["to"]) for e in tr.hops] +
                     [(e["time"], 0, e["from"], e["to"]) for e in tr.events.get("frustrated_hop", [])])
     return line, snaps, events, mon, np.array(model.mass)
@@ -75,7 +95,8 @@ def compare(spec, out, snaps, events, mass):
     steps = len(snaps) - 1
     if out[0] != "ok":
         return "model said %r" % (out[:3],), {}
-    per = 2 * n + 2 * N * N + 3
+    cls = spec.get("cls", "TrajectorySH")
+    per = 2 * n + 2 * N * N + {"TrajectorySH": 3, "Ehrenfest": 2, "TrajectoryCum": 5}[cls]
     toks = out[1:]
     if len(toks) != per * steps:
         return "model returned %d tokens for %d steps" % (len(toks), steps), {}
@@ -85,8 +106,18 @@ def compare(spec, out, snaps, events, mass):
         x = np.array([unfb(v) for v in tk[:n]])
         v = np.array([unfb(v) for v in tk[n:2 * n]])
         rho = ec.parse_cmat(tk[2 * n:2 * n + 2 * N * N], N)
-        st, ev, to = int(tk[-3]), int(tk[-2]), int(tk[-1])
+        base = 2 * n + 2 * N * N
+        st = int(tk[base])
+        ev, to = (int(tk[base + 1]), int(tk[base + 2])) if cls != "Ehrenfest" else (-1, -1)
         s = snaps[k + 1]
+        if cls == "Ehrenfest":
+            pot = unfb(tk[base + 1])
+            if abs(pot - s["potential"]) > 1e-9 * (abs(s["potential"]) + 1e-3):
+                return "step %d: potential %r in the log, model tr(rho H) = %r" % (k + 1, s["potential"], pot), {}
+        if cls == "TrajectoryCum":
+            pc, zz = unfb(tk[base + 3]), unfb(tk[base + 4])
+            if abs(pc - s["prob_cum"]) > 1e-9 * max(abs(pc), abs(s["prob_cum"])) or zz != s["zeta"]:
+                return "step %d: prob_cum/zeta %r/%r in the log, model %r/%r" % (k + 1, s["prob_cum"], s["zeta"], pc, zz), {}
         sx, sp, srho = np.asarray(s["position"]), np.asarray(s["momentum"]), np.asarray(s["density_matrix"])
         if st != int(s["active"]):
             return "step %d: model on state %d, implementation on %d" % (k + 1, st, s["active"]), {}
@@ -103,11 +134,11 @@ def compare(spec, out, snaps, events, mass):
     return None, {"steps": steps, "accepted": sum(1 for e in mev if e[1] == 1), "frustrated": sum(1 for e in mev if e[1] == 0)}
 
 
-def run_correspondence(ctx, count, hops=True, label="shrun"):
+def run_correspondence(ctx, count, hops=True, label="shrun", cls="TrajectorySH"):
     rng = ctx.rng
     specs, lines, recs = [], [], []
     for _ in range(count):
-        spec = make_spec(rng, hops=hops)
+        spec = make_spec(rng, hops=hops, cls=cls)
         line, snaps, events, mon, mass = record_run(spec)
         ctx.monitor("eigh_orthonormality", mon["orth"])
         ctx.monitor("eigh_residual_rel", mon["resid"])
